@@ -1,12 +1,29 @@
 (* C11 — the generic lemmas instantiated with the tables of the Go toolchain (no hypothesis left). *)
 From Coq Require Import List Bool NArith.
-From C11 Require Import Model ProofsUtf8 ProofsLower ProofsTables.
+From C11 Require Import Model ProofsUtf8 ProofsLower ProofsText ProofsTables.
 Open Scope N_scope.
 
 Definition go_lower_sides_agree := lower_sides_agree go_to_lower go_to_lower_ascii go_to_lower_idem.
 Definition go_lower_ip_map_lower := lower_ip_map_lower go_to_lower go_to_lower_ascii go_to_lower_idem.
 Definition go_kw_findable := kw_findable go_to_lower go_to_lower_ascii go_to_lower_idem.
 Definition go_kw_consistent := kw_consistent go_to_lower go_to_lower_ascii go_to_lower_idem.
+
+Definition go_word_token := word_token go_to_lower.
+Definition go_text_consistent :=
+  text_consistent go_is_letter go_is_number go_to_lower go_to_lower_ascii go_to_lower_idem go_class_ascii
+    go_fffd_not_word.
+
+(* non-vacuity of the text theorem: "Straße_ÀB ٣x*y" with a width-changing rune, a non-ASCII digit, '_' and '*' *)
+Lemma text_nonvacuous :
+  let c := ICfg false false 72 32768 in
+  let v := [75; 226; 132; 170; 95; 195; 128; 66; 32; 217; 163; 120; 42; 121] in
+  skipped TyText c 0 v = false /\
+  words_of go_is_letter go_is_number (segs (indexed_part TyText c 0 v)) [] =
+    [[75; 226; 132; 170; 95; 195; 128; 66]; [217; 163; 120; 42; 121]] /\
+  fst (text_tokenize go_is_letter go_is_number go_to_lower c 0 v) =
+    [[107; 107; 95; 195; 160; 98]; [217; 163; 120; 42; 121]] /\
+  has_rune WildcardRune (indexed_part TyText c 0 v) = false.
+Proof. vm_compute. repeat split; reflexivity. Qed.
 
 (* defect #13 (known finding cs-invalid-utf8): case-sensitive, value "ab\xffcd" *)
 Lemma kw_cs_invalid_refuted :
